@@ -447,6 +447,74 @@ def _lossy_rule(chk, tu):
     chk.floor(rule, 3, n)
 
 
+def _signedness_rule(chk, prog, tu):
+    """core/s64 and core/u64 share the hooks that only move bits (hash, marshal, unmarshal), but every hook that
+    INTERPRETS the 64 bits - ordering and printing - must read them with the signedness of its own type: the primitive
+    comparators (<, sort, max) go through the type's compare hook, so an unsigned type wired to the signed comparator
+    orders 2^63 and above before 0."""
+    rule = "C14-SIGNEDNESS"
+    chk.rule(rule, "the compare and tostring hooks of core/s64 / core/u64 read the payload with the signedness of their own type")
+    n = 0
+    for tname, want, other in (("janet_s64_type", "int64_t", "uint64_t"), ("janet_u64_type", "uint64_t", "int64_t")):
+        init = tu.ginit(tname)
+        if init is None:
+            raise AnalysisBroken("%s not found" % tname)
+        rec = prog.records.get("JanetAbstractType")
+        fields = [f["n"] for f in rec["fields"]] if rec else []
+        for i, k in enumerate(init.kids):
+            if i >= len(fields) or fields[i] not in ("compare", "tostring"):
+                continue
+            k = strip_casts(k)
+            if not is_ref(k) or k.name not in tu.funcs:
+                continue
+            fn = tu.funcs[k.name]
+            n += 1
+            chk.instance(rule)
+            chk.analysed(fn)
+            loads = set()
+            for x in fn.nodes:
+                if x.k == "cast" and (x.t or "").replace(" ", "") in ("int64_t*", "uint64_t*"):
+                    loads.add((x.t or "").replace(" ", "").rstrip("*"))
+            if other in loads or want not in loads:
+                chk.violation(rule, tu.name, tname, "%s:%s" % (fields[i], k.name), fn.loc,
+                              "%s.%s is %s, which reads the payload as %s: values of %s are %s as if they were %s" % (
+                                  tname, fields[i], k.name, sorted(loads) or "nothing", tname.replace("janet_", "core/").replace("_type", ""),
+                                  "ordered" if fields[i] == "compare" else "printed", other))
+            else:
+                chk.ok(rule, "%s.%s = %s reads %s" % (tname, fields[i], k.name, want))
+    chk.floor(rule, 4, n)
+
+
+def _unsignedwrap_rule(chk):
+    """brushift works on uint32: its result can be any value up to 2^32 - 1 and must be boxed as that number.  Boxing
+    it through a 32-bit signed conversion (janet_wrap_integer) turns results with bit 31 set into negative numbers."""
+    from jv.vm import VMHandlers
+    rule = "C14-UNSIGNEDWRAP"
+    chk.rule(rule, "results of the unsigned 32-bit interpreter operations are boxed without a signed 32-bit conversion")
+    full = Program.load("default", units=["vm.c"])
+    vm = VMHandlers(full)
+    n = 0
+    for x in vm.fn.nodes:
+        h = vm.handler_of(x)
+        if not h or "UNSIGNED" not in h:
+            continue
+        if x.k == "asg" and x.kids[0].k == "sub" and is_ref(strip_casts(x.kids[0].kids[0]), "stack"):
+            unsigned_src = any((y.t or "") in ("uint32_t", "unsigned int") for y in x.kids[1].walk())
+            if not unsigned_src:
+                continue
+            n += 1
+            chk.instance(rule)
+            bad = [y for y in x.kids[1].walk() if y.k == "cast" and (y.t or "") in ("int32_t", "int") and y.kids
+                   and (y.kids[0].t or "") in ("uint32_t", "unsigned int")]
+            if bad:
+                chk.violation(rule, "vm.c", "run_vm", "%s:int32-cast" % h[6:], x.loc,
+                              "%s stores `%s`: the unsigned 32-bit result goes through a signed 32-bit conversion, so results "
+                              "with bit 31 set come back negative" % (h[6:], x.kids[1].text()[:60]))
+            else:
+                chk.ok(rule, "%s: unsigned result boxed as a number" % h[6:])
+    chk.floor(rule, 2, n)
+
+
 def run(chk):
     prog = Program.load("default", units=["inttypes.c"])
     tu = prog.tus["inttypes.c"]
@@ -457,6 +525,8 @@ def run(chk):
     _accum_rule(chk)
     _castrange_rule(chk, tu)
     _lossy_rule(chk, tu)
+    _signedness_rule(chk, prog, tu)
+    _unsignedwrap_rule(chk)
     chk.floor("C14-DIV", 8)
     chk.floor("C14-WRAP", 10)
     chk.floor("C14-METHODS", 40)
